@@ -460,26 +460,19 @@ Section Accepted.
     exists ta. split; assumption.
   Qed.
 
-  (* a block that consists of one expression statement: its value is the value of the expression
-     (the checker looks at the expression twice: once as a statement, once as the value of the block) *)
+  (* a block that consists of one expression statement: its value is the value of the expression *)
   Lemma block_single a oa sp sp1 f ctx s r ov s' :
     sound_expr a oa -> wf s -> Inv s ->
     expression_block G (afix f) sp [SStatementExpression a sp1] ctx s = Ok ((r, ov), s') ->
     wf s' /\ ext s s' /\ exists ta v, oa = Some ta /\ ov = Some v /\ head s' v = Some (bty_head ta).
   Proof.
-    intros Sa W HI H. unfold expression_block in H. cbn [foldM last_stmt] in H.
-    apply bind_inv in H as (r1 & s1 & H1 & H).
-    apply bind_inv in H1 as (b' & s2 & H1 & Hr). injection Hr as <- <-.
-    apply bind_inv in H1 as (sr & s3 & Hs & Hu).
-    destruct f as [|f]; [discriminate|]. cbn [Tc.afix astep r_stmt] in Hs. unfold stmt_body in Hs.
-    apply bind_inv in Hs as ([r0 v0] & s4 & He & Hs). injection Hs as <- <-.
-    destruct (Sa _ _ _ _ _ W HI He) as (W4 & E4 & _).
-    assert (s2 = s4) by (destruct r0; cbn in Hu; injection Hu as _ <-; reflexivity). subst s2.
+    intros Sa W HI H. unfold expression_block in H. cbn [block_split fst snd foldM] in H.
+    apply bind_inv in H as (r1 & s1 & H1 & H). injection H1 as <- <-.
     apply bind_inv in H as ([vret v] & s5 & He2 & H).
-    destruct (Sa _ _ _ _ _ W4 (Inv_ext _ _ W E4 HI) He2) as (W5 & E5 & (ta & -> & Hv)). cbn [snd] in Hv.
+    destruct (Sa _ _ _ _ _ W HI He2) as (W5 & E5 & (ta & -> & Hv)). cbn [snd] in Hv.
     apply bind_inv in H as (r' & s6 & H6 & H). injection H as _ <- <-.
-    assert (P6 : pres (unify_option G sp b' vret)) by prs. destruct (P6 _ _ _ W5 H6) as [W6 E6].
-    split; [assumption|]. split; [eapply ext_trans; [exact E4|]; eapply ext_trans; eassumption|].
+    assert (P6 : pres (unify_option G sp None vret)) by prs. destruct (P6 _ _ _ W5 H6) as [W6 E6].
+    split; [assumption|]. split; [eapply ext_trans; eassumption|].
     exists ta, v. repeat split. eapply head_keep; [exact E6|exact Hv|apply rigid_bty].
   Qed.
 
